@@ -150,7 +150,15 @@ def unjson(j):
         if "d" in j:
             return {k: unjson(v) for k, v in j["d"]}
         if "u" in j:
-            return Fun(j["u"])
+            import pool
+            n = j["u"]
+            if n in pool.COERCERS:
+                return pool.COERCERS[n]
+            if n in pool.CHECKS:
+                return pool.CHECKS[n]
+            if n in pool.SETTER_NAMES:
+                return pool.setter(n)
+            return Fun(n)
         if "set" in j:
             return [unjson(x) for x in j["set"]]
         raise ValueError(j)
